@@ -131,3 +131,13 @@ chk("C09", "exploration", "property-based testing (Hypothesis): generated colour
     "Search, not proof.",
     "Correction maths trusted from the light's own gamma_correct/color_correct; ties of priority accept either entry; tracking not asserted under gamma profiles or within 2 s of a removal.",
     "DESIGN.md §4 C09")
+chk("C17", "exploration", "property-based testing (Hypothesis): generated shows and control histories vs. a position/time model on a jittered virtual clock, plus a clean-up oracle",
+    "Generated shows (durations as duration:, absolute or relative time:, lights, a token light, a coil, a marker event per "
+    "step) are played with generated speed, loops, start step, sync_ms, manual_advance and priority and controlled by "
+    "stop/pause/resume/advance/step_back/update at generated instants, through the RunningShow API and through "
+    "show_player entries with keys; loop wake-ups are late by generated amounts. Every step marker must come at its "
+    "scheduled time T0 + sum(durations)/speed within the lateness bound for every loop (no drift), in the model's step "
+    "order; played/looped/completed/stopped events once each at the model's moments; after stopping, no light stack "
+    "entry, coil or running instance of the show remains. Search, not proof.",
+    "Lateness <= 4 ms; requests closer than 2J to a step instant are skipped; one live instance per show so markers can be attributed.",
+    "DESIGN.md §4 C17")
